@@ -30,6 +30,16 @@ Theorem C17_interleaving_projects_to_threads : forall (Op : Type) (ts : list (li
   interleave ts l -> i < length ts -> map snd (filter (fun io => Nat.eqb (fst io) i) l) = nth i ts [].
 Proof. exact @interleave_projects. Qed.
 
+(* ... the statement in which the schedule matters: under ANY interleaving of the threads' lists, thread i is
+   handed exactly the outputs of the sequential run of its own list.  (The model's [step] returns the key
+   unchanged BY DEFINITION — Rust's `&self` methods over data without interior mutability; that the code has
+   that shape is the inventory theorem below, regenerated from the source, and the stress runs.) *)
+Theorem C17_each_thread_sees_its_sequential_run :
+  forall (Key Op Out : Type) (eval : Key -> Op -> Out) (ts : list (list Op)) (l : list (nat * Op)) k i,
+  interleave ts l -> i < length ts ->
+  map snd (filter (fun r => Nat.eqb (fst r) i) (tagged_outputs eval k l)) = snd (run eval k (nth i ts [])).
+Proof. exact @each_thread_sees_its_sequential_run. Qed.
+
 (* the code has no shared mutable component: obligation over the inventory regenerated from /repo *)
 Theorem C17_no_shared_mutable_state : sharing_ok = true.
 Proof. exact sharing_inventory_ok. Qed.
@@ -40,4 +50,5 @@ Print Assumptions C17_history_independent.
 Print Assumptions C17_interleaving_equivalent.
 Print Assumptions C17_thread_view_is_sequential.
 Print Assumptions C17_interleaving_projects_to_threads.
+Print Assumptions C17_each_thread_sees_its_sequential_run.
 Print Assumptions C17_no_shared_mutable_state.
